@@ -1,4 +1,5 @@
 import FoxModel.Lemmas.KeyScan
+import FoxModel.Lemmas.KeyScanHost
 import FoxModel.Util
 /-
   Property C01, the byte offsets of the matcher. Everywhere else in the model a node key is a list of tokens; the Go
@@ -57,6 +58,24 @@ theorem tsr_guards (pre k : List Tok) :
     (((render pre).length = 1 ∧ (render (pre ++ k))[0]? = some SLASH) ↔ pre = [.lit SLASH]) :=
   ⟨atKeyEnd_iff pre k, restSlash_iff pre k, oneSlash_iff pre k⟩
 
+/-- **hostname keys**: the same for the inner loop of `lookupByDomain` (delimiter '.', no catch-all, the comparison
+    `key[i] != host[charsMatched] || host[charsMatched] == '{'`): on a key without catch-all tokens the byte loop stops for
+    the same reason, at the same `charsMatched`, with the same recorded parameters as the token-level loop -/
+theorem host_key_offsets_are_token_split (toks : List Tok) (hk : keyOk toks = true) (hc : noCatchAll toks = true)
+    (k pre : List Tok) (h : pre ++ k = toks) (host : Bytes) (lz : Bool) (cm pc : Nat) (ps : Binds) :
+    scanBH (render toks) (wildPositions 0 toks) host lz (render pre).length (wcount pre) cm pc ps =
+      toB (scanTH pre k (host.drop cm) lz cm pc ps) :=
+  scanBH_eq_scanTH toks hk hc k pre h host lz cm pc ps
+
+/-- the token-level hostname loop is the advancing part of `Machine.hostKeyLoop` -/
+theorem hostKeyLoop_is_scan (lz : Bool) (host path : Bytes) (cur : Node) (R : Regs)
+    (k pre : List Tok) (cm pc : Nat) (ps : Binds) :
+    hostKeyLoop lz host path cur k cm pc { R with params := ps } =
+      hostKeyLoop lz host path cur (scanTH pre k (host.drop cm) lz cm pc ps).k
+        (scanTH pre k (host.drop cm) lz cm pc ps).cm (scanTH pre k (host.drop cm) lz cm pc ps).pc
+        { R with params := (scanTH pre k (host.drop cm) lz cm pc ps).ps } :=
+  hostKeyLoop_scan lz host path cur R k pre cm pc ps
+
 end Fox.C01
 
 namespace Fox.C01.BytesEx
@@ -74,5 +93,13 @@ def key : List Tok := (tokenize (ascii "/a/{x}/b{y}/c")).getD []
 -- a mismatch after the first parameter, the lazy run records nothing
 #guard (scanB (render key) ((parseWildcard (render key)).getD []) (ascii "/a/1/x") true 0 0 0 0 []).stop == .mismatch &&
   (scanB (render key) ((parseWildcard (render key)).getD []) (ascii "/a/1/x") true 0 0 0 0 []).ps == []
+
+-- a hostname key: {sub}.example matched against "api.example.com": the parameter is recorded, the key is used up at "."
+def hkey : List Tok := (tokenize (ascii "{sub}.example")).getD []
+#guard tokenize (render hkey) == some hkey && keyOk hkey && noCatchAll hkey
+#guard (scanBH (render hkey) ((parseWildcard (render hkey)).getD []) (ascii "api.example.com") false 0 0 0 0 []) ==
+  ⟨.keyEnd, 13, 1, 11, 1, [(ascii "sub", ascii "api")]⟩
+#guard (scanBH (render hkey) ((parseWildcard (render hkey)).getD []) (ascii "api.example.com") false 0 0 0 0 []) ==
+  toB (scanTH [] hkey (ascii "api.example.com") false 0 0 [])
 
 end Fox.C01.BytesEx
